@@ -134,9 +134,9 @@ def expToks (e : Rat) : List Tok :=
 
 def itemToks : Item → List Tok
   | .lit n => [.num n 0]
-  | .sym s => [.name s]
-  | .sqrt s => [.name "sqrt", .lpar, .name s, .rpar]
-  | .pow s e => [.name s, .dstar] ++ expToks e
+  | .sym s => [.name s.toList]
+  | .sqrt s => [.name "sqrt".toList, .lpar, .name s.toList, .rpar]
+  | .pow s e => [.name s.toList, .dstar] ++ expToks e
 
 def joinToks : List Item → List Tok
   | [] => []
